@@ -100,6 +100,12 @@ def with_terminate(case):
     by = TIDS[k % len(TIDS)] if k % 3 else cfg['tid']
     data = b''.join(int(x).to_bytes(8, 'little') for x in (cfg['tid'], 0, 0, 0))
     recs.insert(pos, kmodel.record(2 * k + 1, data, by, EV.by_name()['TRACE_DATA_THREAD_TERMINATE']))
+    if k % 2:
+        # ... and a new-thread record, logged by the creating thread, that declares the filtered thread's process (the
+        # listing of the filtered thread still shows the very lines the unfiltered listing shows for it)
+        decl = b''.join(int(x).to_bytes(8, 'little') for x in (cfg['tid'], 4000 + k, 0, 0))
+        creator = TIDS[(k + 1) % len(TIDS)] if TIDS[(k + 1) % len(TIDS)] != cfg['tid'] else 0x99
+        recs.insert(0, kmodel.record(2 * k + 3, decl, creator, EV.by_name()['TRACE_DATA_NEWTHREAD']))
     return dict(spec, recs=recs)
 
 
